@@ -237,26 +237,80 @@ func (s *sinkState) checkSVG() Check {
 		return bad("sink-missing", "svg: %v", err)
 	}
 	ref := svgReference(s.lines)
-	got := make([]string, len(f.Lines))
-	for i := range f.Lines {
-		k, err := svgOutKey(&f.Lines[i])
-		if err != nil {
-			return bad("svg-number", "line %d: %v", i, err)
-		}
-		got[i] = k
-	}
-	if ok, msg := compareKeys(ref.Lines, got, s.ordered); !ok {
-		return bad("sink-content", "svg lines: %s", msg)
-	}
 	w, e1 := strconv.ParseFloat(f.Width, 64)
 	h, e2 := strconv.ParseFloat(f.Height, 64)
 	if e1 != nil || e2 != nil {
 		return bad("svg-canvas", "canvas %q x %q is not numeric", f.Width, f.Height)
 	}
-	if numKey(w) != numKey(ref.W) || numKey(h) != numKey(ref.H) {
-		return bad("svg-canvas", "canvas %s x %s, drawing extent is %g x %g", f.Width, f.Height, ref.W, ref.H)
+	if !s.ordered {
+		// several producers: the order is free, compare the multiset of lines
+		got := make([]string, len(f.Lines))
+		for i := range f.Lines {
+			k, err := svgOutKey(&f.Lines[i])
+			if err != nil {
+				return bad("svg-number", "line %d: %v", i, err)
+			}
+			got[i] = k
+		}
+		if ok, msg := compareKeys(ref.Lines, got, false); !ok {
+			return bad("sink-content", "svg lines: %s", msg)
+		}
+		if numKey(w) != numKey(ref.W) || numKey(h) != numKey(ref.H) {
+			return bad("svg-canvas", "canvas %s x %s, drawing extent is %g x %g", f.Width, f.Height, ref.W, ref.H)
+		}
+		return okCheck
+	}
+	// one producer: line i of the file is segment i. Every written number must
+	// be a two-decimal rounding of the exact translated / flipped coordinate
+	// (exact = computed without rounding error from the float64 inputs; one
+	// ulp of slack for the single subtraction any implementation needs).
+	if len(f.Lines) != len(s.lines) {
+		return bad("sink-content", "svg holds %d lines, %d segments were written", len(f.Lines), len(s.lines))
+	}
+	if len(s.lines) == 0 {
+		if w != 0 || h != 0 {
+			return bad("svg-canvas", "canvas %s x %s for an empty drawing", f.Width, f.Height)
+		}
+		return okCheck
+	}
+	minX, minY, maxX, maxY := ref.minX, ref.minY, ref.maxX, ref.maxY
+	if !twoDecOf(w, maxX, minX) || !twoDecOf(h, maxY, minY) {
+		return bad("svg-canvas", "canvas %s x %s, drawing extent is %g x %g", f.Width, f.Height, maxX-minX, maxY-minY)
+	}
+	for i, l := range s.lines {
+		var v [4]float64
+		for k, t := range []string{f.Lines[i].X1, f.Lines[i].Y1, f.Lines[i].X2, f.Lines[i].Y2} {
+			x, err := strconv.ParseFloat(t, 64)
+			if err != nil {
+				return bad("svg-number", "line %d: bad number %q", i, t)
+			}
+			v[k] = x
+		}
+		if !twoDecOf(v[0], l[0].X, minX) || !twoDecOf(v[1], maxY, l[0].Y) || !twoDecOf(v[2], l[1].X, minX) || !twoDecOf(v[3], maxY, l[1].Y) {
+			return bad("sink-content", "svg line %d is (%s,%s)-(%s,%s); segment (%g,%g)-(%g,%g) with minimum corner (%g,%g) and top %g must map to (%g,%g)-(%g,%g)",
+				i, f.Lines[i].X1, f.Lines[i].Y1, f.Lines[i].X2, f.Lines[i].Y2, l[0].X, l[0].Y, l[1].X, l[1].Y, minX, minY, maxY,
+				l[0].X-minX, maxY-l[0].Y, l[1].X-minX, maxY-l[1].Y)
+		}
 	}
 	return okCheck
+}
+
+// twoDecOf reports whether v is a two-decimal rounding of the exact value of
+// a-b (a, b float64), allowing one ulp of the difference for the subtraction.
+func twoDecOf(v, a, b float64) bool {
+	s := a - b
+	if math.IsInf(s, 0) || math.IsNaN(s) {
+		return math.IsInf(v, 0) || math.IsNaN(v) || math.Abs(v) >= math.MaxFloat64/2
+	}
+	// error-free transformation: a-b = s+e exactly
+	bb := a - s
+	e := (a - (s + bb)) + (bb - b)
+	if math.IsNaN(e) || math.IsInf(e, 0) {
+		e = 0
+	}
+	ulp := math.Abs(math.Nextafter(s, math.Inf(1)) - s)
+	diff := math.Abs((v - s) - e)
+	return diff <= 0.005+2*ulp+1e-18
 }
 
 // digest of the sink content for cross-execution comparison (C09).
